@@ -259,6 +259,90 @@ def run_gen(ctx, seed, index, which):
     ctx.cover('gen:evaluated')
 
 
+LINKS = ['rule:{n}', 'not rule:{n}', 'rule:{n} or role:x',
+         'role:y and rule:{n}', '(rule:{n})', 'rule:undef',
+         'not rule:undef', 'class.a:%(k)s', 'role:x']
+
+
+def run_chain(ctx, k, dflt, link0=None):
+    """Chains of references n0 -> n1 -> ... whose links are pure aliases or
+    references inside an expression; the last hop may be undefined, a
+    hostile leaf or a role check; with and without a default rule.  Every
+    name is enforced: a decision, never an undocumented exception, and an
+    undefined hop without a default rule denies (not under ``not``)."""
+    from oslo_policy import policy
+    common.set_ctx(ctx)
+    names = ['n%d' % i for i in range(k)]
+    rules = {}
+    picks = []
+    for i, n in enumerate(names):
+        nxt = names[i + 1] if i + 1 < k else 'undef'
+        if i == 0 and link0 is not None:
+            li = link0          # cube split
+        else:
+            li = int(ctx.choice('link%d' % i, list(range(len(LINKS)))))
+        picks.append(li)
+        rules[n] = LINKS[li].format(n=nxt)
+    if dflt == 'role':
+        rules['default'] = 'role:d'
+    elif dflt == 'hostile':
+        rules['default'] = 'None.a:%(k)s'
+    # (value types at every path position are the paths harness's subject)
+    creds = {'roles': ctx.roles('role', ['x', 'y', 'd']),
+             'class': ctx.choice('cls', [None, {'a': 'x'}])}
+    target = dict(ctx.choice('target', [{}, {'k': 'x'}]))
+    enf = common.mk_enforcer(rules=policy.Rules.from_dict(rules))
+    roles = creds['roles']
+    cls = creds['class']
+
+    def ref(nm, depth=0):
+        """Reference evaluation of a name (None: outside the oracle)."""
+        if nm not in rules:
+            if 'default' in rules and nm != 'default':
+                return ref('default', depth + 1)
+            return False
+        body = rules[nm]
+
+        def leaf(t):
+            if t.startswith('rule:'):
+                return ref(t[5:], depth + 1)
+            if t.startswith('role:'):
+                return t[5:] in roles
+            if t.startswith('class.a:'):
+                return (isinstance(cls, dict) and 'k' in target and
+                        str(cls.get('a')) == str(target['k']))
+            if t.startswith('None.a:'):
+                return False
+            raise AssertionError(t)
+        tree = boolang.text_tree(body)
+        return boolang.evaluate(tree, leaf)
+    out = []
+    for n in names:
+        got = _enforce(ctx, enf, n, target, creds, 'chain:exception',
+                       {'rules': rules, 'name': n})
+        out.append(got)
+        if got is not None:
+            want = ref(n)
+            ctx.require(got == want, 'chain:decision',
+                        detail={'rules': rules, 'name': n, 'got': got,
+                                'want': want, 'class': repr(cls),
+                                'target': target})
+    ctx.observe('got', out)
+    ctx.cover('chain:evaluated')
+    if LINKS[picks[-1]].startswith('rule:') and k > 1 and \
+            LINKS[picks[0]] in ('rule:{n}', '(rule:{n})'):
+        ctx.cover('chain:alias-to-undefined-hop')
+
+
+def cubes_chain(tier, seed):
+    out = [{'k': 2, 'dflt': d} for d in ('none', 'role', 'hostile')]
+    for k in ((3,) if tier == 'quick' else (3, 4)):
+        out += [{'k': k, 'dflt': d, 'link0': i}
+                for d in ('none', 'role', 'hostile')
+                for i in range(len(LINKS))]
+    return out
+
+
 def cubes_gen(tier, seed):
     return [{'seed': seed, 'index': i, 'which': w}
             for i in range(12 if tier == 'quick' else 150)
@@ -270,10 +354,12 @@ HARNESSES = {
     'paths': {'fn': run_paths, 'cubes': cubes_paths},
     'subst': {'fn': run_subst, 'cubes': cubes_subst},
     'gen': {'fn': run_gen, 'cubes': cubes_gen, 'max_viol': 6},
+    'chain': {'fn': run_chain, 'cubes': cubes_chain, 'max_viol': 6},
 }
 REQUIRED_COVER = ['lhs:list', 'lhs:text', 'lhs:literal', 'lhs:not-literal',
                   'paths:evaluated', 'subst:list', 'subst:expr',
-                  'gen:evaluated']
+                  'gen:evaluated', 'chain:evaluated',
+                  'chain:alias-to-undefined-hop']
 
 
 def cube_weight(h, p):
@@ -299,6 +385,12 @@ def evidence(tier):
                      'of any JSON type x credentials with 0-2 symbolic role '
                      'names or no roles entry' % len(CHECKS),
             'gen': 'seeded acyclic rule sets of 4 rules with hostile leaves',
+            'chain': 'reference chains of 2..%d names, every link one of %d '
+                     'forms (pure alias, under not/and/or/group, undefined '
+                     'reference, hostile leaf, role), last hop undefined; '
+                     'no default / role default / hostile default; every '
+                     'name enforced and compared with a reference '
+                     'evaluation' % (3 if tier == 'quick' else 4, len(LINKS)),
         },
         'symbols': ['t<i>: token', 'creds/target ...@type/@present/...',
                     'rhs, r<i>: symbolic strings', 'role.<r>: Bool'],
